@@ -90,7 +90,7 @@ class World:
         self.last_reply_frame = None
         self.ended = False
         self.free_since = (-1, 0.0)   # (batch counter at which the slot was last released, ...)
-        self.left = {"cb": 2, "dup": 1, "foreign": 1, "late": 1, "fail": 1, "hold": 1, "cancel": 2, "T": 3, "reg": 1, "unreg": 1, "collide": 1}
+        self.left = {"cb": 2, "dup": 1, "foreign": 1, "late": 1, "fail": 1, "hold": 1, "cancel": 2, "T": 3, "reg": 1, "unreg": 1, "collide": 1, "race": 1}
         self.left.update(params.get("budget", {}))
         self.window = params.get("window")
         self.answered = 0
@@ -293,6 +293,11 @@ class World:
                 out.append((("foreign-seq-reply",), 1))
             if L["collide"] > 0:
                 out.append((("callback-with-pending-seq",), 1))
+            if L["race"] > 0 and not self.p.get("sequential"):
+                # two sources ready in one loop iteration: the reply's I/O callback runs first, then the other event
+                if self.loop.next_deadline() is not None:
+                    out.append((("reply+timeout-same-iteration",), 1))
+                out.append((("reply+cancel-same-iteration",), 1))
         if L["cb"] > 0:
             out.append((("callback",), 1))
         if L["dup"] > 0 and self.last_reply_frame is not None:
@@ -344,6 +349,31 @@ class World:
                 c = r.caller
                 if not c.task.done():
                     self.viol.append(f"{c.name}: own reply (seq {r.seq}) delivered but the call did not complete")
+        elif kind in ("reply+timeout-same-iteration", "reply+cancel-same-iteration"):
+            self.left["race"] -= 1
+            r = self.inflight()
+            c = r.caller
+            self.tag += 1
+            frame, name, vals = self._reply_frame(r, self.tag)
+            if kind.startswith("reply+timeout"):
+                self.loop._vtime = max(self.loop._vtime, self.loop.next_deadline())
+            r.reply, r.reply_t = vals, self.loop.time()
+            r.raced = kind
+            self.last_answered_seq = r.seq
+            self.last_reply_frame = (frame, name, vals)
+            self.answered += 1
+            marks = [len(x[1]) for x in self.recorders]
+            self.loop.call_soon(self.ezsp.frame_received, frame)
+            if kind.startswith("reply+timeout"):
+                self.loop.fire_timers()
+            else:
+                c.cancelled_by_env = True
+                self.loop.call_soon(c.task.cancel)
+            self.loop.settle()
+            if any(len(x[1]) != m for x, m in zip(self.recorders, marks) if x[2]) and c.outcome and c.outcome[0] == "ok":
+                self.viol.append(f"{c.name}: reply both completed the call and was delivered to callbacks")
+            if not c.task.done():
+                self.viol.append(f"{c.name}: call still pending after its reply raced with a {'timeout' if 'timeout' in kind else 'cancellation'}")
         elif kind == "T":
             if len(label) > 1:
                 self.left["T"] -= 1
@@ -437,7 +467,7 @@ class World:
                     self.viol.append(f"{c.name}: link-level send failure but the call ended with {out}")
                 continue
             if r.reply is not None:
-                if out == "timeout" and getattr(r, "may_timeout", False):
+                if out == "timeout" and (getattr(r, "may_timeout", False) or "timeout" in getattr(r, "raced", "")):
                     pass
                 elif out != "ok":
                     self.viol.append(f"{c.name}: own reply was delivered while pending but the call ended with {out}")
